@@ -277,8 +277,11 @@ impl<'input> GrmtoolsSectionParser<'input> {
             Some(m) => {
                 let num_span = Span::new(i + m.start(), i + m.end());
                 let num_str = &self.src[num_span.start()..num_span.end()];
-                // If the above regex matches we expect this to succeed.
-                let num = str::parse::<u64>(num_str).unwrap();
+                // The regex guarantees digits only, but not that they fit into a u64.
+                let num = str::parse::<u64>(num_str).map_err(|_| HeaderError {
+                    kind: HeaderErrorKind::InvalidEntry("number does not fit into 64 bits"),
+                    locations: vec![num_span],
+                })?;
                 let val = Setting::Num(num, num_span);
                 i = self.parse_ws(num_span.end());
                 Ok((val, i))
